@@ -451,10 +451,7 @@ func (b *Blinder) blind(
 		p.Global.Scalars = nil
 	}
 
-	b.Pset.Global = p.Global
-	b.Pset.Inputs = p.Inputs
-	b.Pset.Outputs = p.Outputs
-	return b.Pset.SanityCheck()
+	return b.Pset.publish(p)
 }
 
 func (b *Blinder) ownOutput(blinderIndex uint32) bool {
